@@ -46,6 +46,8 @@ type vfPktCfg struct {
 	CancelErr int       // Ctrl-C when the j-th error reaches the log (0: never): by then every buffer behind a stalled log is full
 	Procs     int
 	Real      bool // frames are built by one real icmp filler shared by all builders (as the commands do), not by the harness
+	BadEvery  time.Duration // frames whose processing fails keep arriving from the last probe on, one every BadEvery, for BadFor
+	BadFor    time.Duration // (a stream of errors during - and, if the scan does not exit, beyond - the exit delay)
 }
 
 type vfPktErr struct {
@@ -226,6 +228,24 @@ func (w *vfPktRW) ReadPacketData() ([]byte, *gopacket.CaptureInfo, error) {
 			return nil, nil, errors.New("read: use of closed file")
 		}
 	}
+	if p.cfg.BadEvery > 0 {
+		w.reads++
+		at := w.lastAt.Add(time.Duration(w.reads) * p.cfg.BadEvery)
+		if at.Sub(w.lastAt) <= p.cfg.BadFor {
+			tm := time.NewTimer(time.Until(at))
+			select {
+			case <-tm.C:
+			case <-p.stop:
+				tm.Stop()
+				return nil, nil, errors.New("read: use of closed file")
+			}
+			data := make([]byte, 8)
+			binary.BigEndian.PutUint32(data, uint32(w.reads)|0x80000000)
+			return data, &gopacket.CaptureInfo{}, nil
+		}
+		<-p.stop
+		return nil, nil, errors.New("read: use of closed file")
+	}
 	if w.reads < len(p.cfg.Replies) {
 		at := w.lastAt.Add(time.Duration(p.cfg.Replies[w.reads] * float64(p.cfg.ExitDelay)))
 		tm := time.NewTimer(time.Until(at))
@@ -258,6 +278,11 @@ func (p *vfPkt) Packets(ctx context.Context, r *scan.Range) <-chan *packet.Buffe
 }
 func (p *vfPkt) ProcessPacketData(data []byte, _ *gopacket.CaptureInfo) error {
 	k := int(binary.BigEndian.Uint32(data))
+	if k&0x80000000 != 0 {
+		k &= 0x7fffffff
+		p.ev(map[string]interface{}{"ev": "RcvFail", "id": k})
+		return &vfPktErr{"rcv", k}
+	}
 	p.results.Put(&vfResult{k})
 	return nil
 }
@@ -331,7 +356,7 @@ func vfRunPkt(cfg vfPktCfg, seed int64) []map[string]interface{} {
 		defer runtime.GOMAXPROCS(runtime.GOMAXPROCS(cfg.Procs))
 	}
 	// exact: with the default (or a larger) exit delay and an error log that keeps up, everything is reported before the return
-	exact := cfg.ExitDelay >= 300*time.Millisecond && cfg.ErrLogUS <= 50 && cfg.CancelAt == 0 && cfg.CancelErr == 0
+	exact := cfg.ExitDelay >= 300*time.Millisecond && cfg.ErrLogUS <= 50 && cfg.CancelAt == 0 && cfg.CancelErr == 0 && cfg.BadEvery == 0 // (a receive error at the very end of the delay may go unreported)
 	p.sink.log(map[string]interface{}{"ev": "Reset", "n": cfg.N, "w": cfg.W, "limited": false, "exact": exact,
 		"delayUs": int(cfg.ExitDelay / time.Microsecond), "replies": len(cfg.Replies)})
 
@@ -396,6 +421,13 @@ func TestVfPktRunner(t *testing.T) {
 		if k%5 == 4 {
 			c.ReqErr, c.FillErr, c.WriteErr = 0.2, 0.1, 0.2
 		}
+		out.write(vfRunPkt(c, seed+int64(runs)))
+		runs++
+	}
+	// C16: errors keep coming during the exit delay (frames that pass the filter but cannot be processed, one every 100 ms for 5 s):
+	// the scan still exits when the delay is over
+	if ndelay > 0 {
+		c := vfPktCfg{N: 5, W: 2, Procs: 4, ExitDelay: 300 * time.Millisecond, BadEvery: 100 * time.Millisecond, BadFor: 5 * time.Second}
 		out.write(vfRunPkt(c, seed+int64(runs)))
 		runs++
 	}
